@@ -56,6 +56,8 @@ def run(name, ids):
         for f in sh("git -C /repo status --porcelain").stdout.splitlines():
             print("leftover in /repo:", f)
         sh("rm -f /verif/replays/*.json")
+        # evidence files written while a seeded change was applied must not survive
+        sh("git -C /verif checkout -- evidence")
     json.dump(meta, open(os.path.join(dst, "meta.json"), "w"), indent=1)
 
 if __name__ == "__main__":
